@@ -1,6 +1,8 @@
 package rules
 
 import (
+	"fmt"
+	"os"
 	"go/constant"
 	"go/token"
 	"go/types"
@@ -29,6 +31,10 @@ func c19(w *core.World, r *core.Report) {
 	ruleSenderRetry(w, r)
 	r.Rule("R19.12", "transactional mode on a cluster target: a batch answered with MOVED, ASK or CROSSSLOT is never sent again within the run", 1)
 	ruleNoResendAfterRedirect(w, r)
+	r.Rule("R19.15", "after an ASK redirect the answer that is judged and returned is the re-sent command's own, not ASKING's", 1)
+	ruleAskReplyIsTheCommands(w, r)
+	r.Rule("R19.14", "a node has one node batch in a plain batch: a new one is opened only after every open one was compared with the node", 1)
+	ruleOneBatchPerNode(w, r)
 	r.Rule("R19.13", "a node's request queue is filled in dispatch order: the submitting goroutine does the send itself", 1)
 	ruleNodeQueueOrder(w, r)
 	r.Rule("R19.4", "per-node order: append-only lists, forward send/receive, index reassembly", 4)
@@ -1103,4 +1109,199 @@ func ruleNodeQueueOrder(w *core.World, r *core.Report) {
 	if n == 0 {
 		r.Fail("nodePipeline/enqueue-in-caller-order", token.NoPos, "no send into a node's request queue found")
 	}
+}
+
+// ---------------------------------------------------------------- R19.14 one node, one node batch
+
+// ruleOneBatchPerNode: Exec runs the node batches of a plain batch concurrently,
+// one connection each. Two writes of one key keep their order only if they sit in
+// the same node batch, i.e. if a node never gets a second batch: Put may open a
+// new node batch only after it compared the chosen node with the node of every
+// batch already open and found none — a scan over all of them, from the first to
+// the last, that ran to its end. Looking at the most recent batch only gives
+// [A][B][A] for the node sequence A, B, A.
+func ruleOneBatchPerNode(w *core.World, r *core.Report) {
+	f := fn(w, r, "(*pkg/redis/client/cluster.Batch).Put")
+	if f == nil {
+		return
+	}
+	var choose ssa.Instruction
+	for _, s := range core.Sites(f, false) {
+		if s.Instr.Parent() == f && strings.HasSuffix(s.Name, "Cluster).ChooseNodeWithCmd") {
+			choose = s.Instr
+		}
+	}
+	if choose == nil {
+		r.Undecided("Batch.Put/one-batch-per-node", f.Pos(), "the node choice was not found")
+		return
+	}
+	isBatches := func(v ssa.Value) bool { return core.IsFieldLoad(core.Unwrap(v), "Batch", "batches") }
+	// the scan: batches[i].node compared with the node, i running over 0 .. len(batches)-1
+	var scanIf *ssa.If
+	var scanIdx *ssa.Phi
+	for _, in := range core.OwnInstrs(f) {
+		cmp, ok := in.(*ssa.BinOp)
+		if !ok || cmp.Op != token.EQL {
+			continue
+		}
+		for _, side := range []ssa.Value{cmp.X, cmp.Y} {
+			ld, ok := core.Unwrap(side).(*ssa.UnOp)
+			if !ok || ld.Op != token.MUL {
+				continue
+			}
+			fa, ok := ld.X.(*ssa.FieldAddr)
+			if !ok || core.FieldName(fa) != "node" {
+				continue
+			}
+			ia, ok := fa.X.(*ssa.IndexAddr)
+			if !ok || !isBatches(ia.X) {
+				continue
+			}
+			from, bound, ok := indexRange(ia.Index)
+			if !ok || from != 0 {
+				continue
+			}
+			if c, isC := core.Unwrap(bound).(*ssa.Call); isC && isBuiltin(c, "len") && isBatches(c.Call.Args[0]) {
+				// the loop head's own test is the exit by the bound
+				idx := core.Unwrap(ia.Index)
+				var ph *ssa.Phi
+				switch y := idx.(type) {
+				case *ssa.Phi:
+					ph = y
+				case *ssa.BinOp:
+					ph, _ = y.X.(*ssa.Phi)
+				}
+				if ph != nil {
+					if iff, isIf := ph.Block().Instrs[len(ph.Block().Instrs)-1].(*ssa.If); isIf {
+						scanIf, scanIdx = iff, ph
+					}
+				}
+			}
+		}
+	}
+	if scanIf == nil {
+		r.Fail("Batch.Put/one-batch-per-node", f.Pos(), "no scan of all open node batches (batches[i].node == node for i from 0 to len(batches)-1) precedes the opening of a new one: a node that reappears later in the batch gets a second node batch, which Exec runs concurrently with the first")
+		return
+	}
+	isNewBatch := func(in ssa.Instruction) bool {
+		st, ok := in.(*ssa.Store)
+		if !ok {
+			return false
+		}
+		fa, ok := st.Addr.(*ssa.FieldAddr)
+		if !ok || core.FieldName(fa) != "batches" || !strings.HasSuffix(core.TypeName(fa.X.Type()), "Batch") {
+			return false
+		}
+		c, isC := core.Unwrap(st.Val).(*ssa.Call)
+		return isC && isBuiltin(c, "append")
+	}
+	bad := ""
+	var pos token.Pos = f.Pos()
+	n := 0
+	okEnum := core.EnumPathsN(f.Blocks[0], 0, 400000, 2, func(p *core.Path) {
+		if bad != "" {
+			return
+		}
+		after := false
+		var nb ssa.Instruction
+		for _, in := range p.Instrs {
+			if in == choose {
+				after = true
+			}
+			if after && isNewBatch(in) {
+				nb = in
+			}
+		}
+		if nb == nil {
+			return
+		}
+		n++
+		done := false
+		for _, fct := range factsBetween(p, choose, nb) {
+			if fct.If == scanIf && !fct.Val {
+				done = true
+			}
+		}
+		// or the opening is guarded by "the scan index reached the number of open batches", which only the
+		// exhausted scan leaves behind (a match leaves the index below it)
+		for _, fct := range core.FactsAt(nb.Block()) {
+			c, ok := core.FactCmp(fct)
+			if !ok || c.Op != token.EQL {
+				continue
+			}
+			isLenB := func(v ssa.Value) bool {
+				call, ok := core.Unwrap(v).(*ssa.Call)
+				return ok && isBuiltin(call, "len") && isBatches(call.Call.Args[0])
+			}
+			if (core.Unwrap(c.X) == ssa.Value(scanIdx) && isLenB(c.Y)) || (core.Unwrap(c.Y) == ssa.Value(scanIdx) && isLenB(c.X)) {
+				done = true
+			}
+		}
+		if !done && os.Getenv("GUNYU_DEBUG") != "" {
+			for _, fct := range factsBetween(p, choose, nb) {
+				fmt.Println("DEBUG r19.14 fact", fct.Val, fct.Cond.String(), fct.If == scanIf, w.Pos(fct.Cond.Pos()))
+			}
+			fmt.Println("DEBUG r19.14 scanIf", w.Pos(scanIf.Cond.Pos()), scanIf.Cond.String())
+		}
+		if !done {
+			bad, pos = "a new node batch is opened on a path on which the scan of the open batches did not run to its end", nb.Pos()
+		}
+	})
+	if !okEnum {
+		r.Undecided("Batch.Put/one-batch-per-node", f.Pos(), "too many paths")
+		return
+	}
+	r.Check(bad == "" && n > 0, "Batch.Put/one-batch-per-node", pos, "%s (paths opening a batch=%d)", bad, n)
+}
+
+// ---------------------------------------------------------------- R19.15 after ASKING, the command's own answer is what counts
+
+// ruleAskReplyIsTheCommands: an ASK redirect is followed by two requests on the
+// target's connection, ASKING and the command, and by two answers. What
+// handleReply judges — and what the caller gets — must be the second answer, the
+// command's: judged on ASKING's "+OK" every redirected command looks successful,
+// a TRYAGAIN or MOVED of the importing node disappears and the command has run on
+// neither node. On every path the value handed to handleReply is the result of
+// the last receive of the path, and there are as many receives as sends.
+func ruleAskReplyIsTheCommands(w *core.World, r *core.Report) {
+	f := fn(w, r, "(*pkg/redis/client/cluster.Cluster).handleAsk")
+	if f == nil {
+		return
+	}
+	bad := ""
+	var pos token.Pos = f.Pos()
+	n := 0
+	okEnum := core.EnumPathsN(f.Blocks[0], 0, 100000, 1, func(p *core.Path) {
+		if bad != "" {
+			return
+		}
+		sends, recvs := 0, 0
+		var last ssa.Value
+		for _, s := range pathSites(p) {
+			switch {
+			case strings.HasSuffix(s.Name, "redisConn).send"):
+				sends++
+			case strings.HasSuffix(s.Name, "redisConn).receive"):
+				recvs++
+				last = s.Value()
+			case strings.HasSuffix(s.Name, "Cluster).handleReply"):
+				n++
+				a := s.Args()
+				okArg := false
+				if len(a) >= 2 {
+					if e, isE := core.Unwrap(p.Resolve(a[1])).(*ssa.Extract); isE && e.Index == 0 && e.Tuple == last {
+						okArg = true
+					}
+				}
+				if !okArg || sends != recvs {
+					bad, pos = fmt.Sprintf("the answer judged after an ASK redirect is not the result of the last receive (requests sent=%d, answers read=%d): the command is judged on ASKING's +OK and its own refusal is lost", sends, recvs), s.Pos()
+				}
+			}
+		}
+	})
+	if !okEnum {
+		r.Undecided("Cluster.handleAsk/judges-the-commands-answer", f.Pos(), "too many paths")
+		return
+	}
+	r.Check(bad == "" && n > 0, "Cluster.handleAsk/judges-the-commands-answer", pos, "%s", bad)
 }
